@@ -87,10 +87,13 @@ func (w *verifWorld) setup(oldFile string) (oldPath, newPath string, cleanup fun
 		panic(err)
 	}
 	oldPath, newPath = filepath.Join(dir, oldFile), filepath.Join(dir, w.newFile)
+	if w.newFile == "" {
+		newPath = ""
+	}
 	if w.openOld {
 		os.WriteFile(oldPath, []byte("old"), 0644)
 	}
-	if w.openNew || (oldPath == newPath && w.openOld) {
+	if newPath != "" && (w.openNew || (oldPath == newPath && w.openOld)) {
 		os.WriteFile(newPath, []byte("new"), 0644)
 	}
 	script := "#!/bin/sh\n"
@@ -130,7 +133,7 @@ func VerifH_C20_find() {
 	w := &verifWorld{
 		hashP: vp.Pick("world.hashP", verifHashes...), hashD: vp.Pick("world.hashD", verifHashes...), hashE: vp.Pick("world.hashE", "h1", "h2", ""),
 		listFails: vp.Bool("list.fails"), listHasP: vp.Bool("list.hasP"), listDepD: vp.Bool("list.depD"),
-		newFile: vp.Pick("list.file", "p.a", "p2.a"),
+		newFile: vp.Pick("list.file", "p.a", "p2.a", ""), // "": the lister reports the package without an export file
 		openOld: vp.Bool("open.old"), openNew: vp.Bool("open.new"),
 	}
 	// arbitrary pre-state: entry for p present or not, any recorded hash, 0..1 recorded dependency
@@ -142,6 +145,9 @@ func VerifH_C20_find() {
 	recDep2Hash := vp.Pick("pre.dep2Hash", "h1", "h2")
 	if w.newFile == "p.a" {
 		vp.Assume(w.openNew == w.openOld) // one file: one answer
+	}
+	if w.newFile == "" {
+		vp.Assume(!w.openNew) // no export file: nothing to open
 	}
 	oldPath, newPath, cleanup := w.setup("p.a")
 	defer cleanup()
